@@ -34,12 +34,12 @@ What is proved, for ALL schedules of unbounded length and all write histories:
   * without any hypothesis: `consume_does_not_interfere` (what one subscriber reads, and how its
     token filters it, never changes what another subscriber receives from the shared items),
     `forced_resubscribe_acl`, `forced_resubscribe_restore`, `closed_subscription_delivers_nothing`.
-The view theorems are stated for consuming subscribers whose token may read everything
-(`Unfiltered`); per-subscriber ACL visibility (`visible`, a pure function of authorizer and item)
-is in the model, compared line by line with the implementation, and monitored.
-Not proved (monitored on the implementation only): registrations that change the address of a
-node that already has instances, whole-node deregistration; the resume path under the index
-guard.
+The clean-schedule theorems hold for subscribers with restricted tokens too
+(`view_ok_partial_filtered`: the view is the ACL-filter of the direct query at the delivered
+commit); the index-guard theorems are stated for unfiltered consumers (`Unfiltered`, `ViewOkU`).
+Not proved (monitored on the implementation only): exactness of filtered views for
+service-subset tokens on the Connect topic; behaviour across `FSM.Restore` while subscriptions
+are attached (refuted in general, see the counterexamples).
 -/
 import CV.Proofs.StreamClean
 namespace CV.Stream
@@ -56,6 +56,24 @@ theorem view_ok_partial (ttl : Bool) (acts : List Act) (h : CleanRun (Sys.init t
   ⟨fun c hc => ((AllInv.init ttl).run acts h).inv.exact c hc,
    ((AllInv.init ttl).run acts h).minv.mono⟩
 
+/-- **view_ok_partial_filtered.** The same for subscribers with RESTRICTED tokens, spelled out:
+    under `CleanRun`, after every step, every subscriber's view is — id by id — the ACL-filter
+    (by ITS authorizer, with the semantics of `CheckServiceNode.CanRead` / `ConfigEntry.CanRead`,
+    `visF`) of the direct-query result at the delivered commit. The filter commutes with the view
+    update because visibility of an entry is a function of its id for ServiceHealth and
+    config-entry payloads, and for Connect payloads unless the token restricts by service name
+    (`AuthzOk`, required when the subscriber is declared). For a token that may read everything
+    this is plain equality. -/
+theorem view_ok_partial_filtered (ttl : Bool) (acts : List Act) (h : CleanRun (Sys.init ttl) acts) :
+    (∀ c ∈ (run (Sys.init ttl) acts).clients, c.m.index ≠ 0 →
+        ∀ i, lookup? i c.m.view = if visF c.authz c.key i then lookup? i c.m.expect else none) ∧
+    (∀ c ∈ (run (Sys.init ttl) acts).clients, c.authz = .all → c.m.index ≠ 0 → ViewEq c.m.view c.m.expect) := by
+  have hv := (view_ok_partial ttl acts h).1
+  refine ⟨fun c hc hi => hv c hc hi, fun c hc ha hi => ?_⟩
+  have := hv c hc hi
+  rw [ha] at this
+  exact isFilterOf_all.mp this
+
 /-- **indexes_monotone (partial), with what it rests on.** In every clean schedule the indexes
     an open subscription can still deliver are ascending, start at or above the last delivered
     one and never exceed the index of the last commit. -/
@@ -68,8 +86,10 @@ theorem indexes_monotone_partial (ttl : Bool) (acts : List Act) (h : CleanRun (S
 /-- **events are faithful (partial).** For every well-formed catalog and every write that satisfies
     the syntactic condition `CleanWrite`, the events `catalog_events.go` / `config_entry_events.go`
     compute describe exactly what the write does to EVERY query (every topic, every subject):
-    replaying them on the old result yields the new one. The excluded registrations contain the
-    two refuted shapes (`witnessConnectLeak`, `witnessRenameOrder`). -/
+    replaying them on the old result yields the new one. `CleanWrite` admits every write of the
+    model — including address changes of nodes that have instances and whole-node
+    deregistration — except exactly the two refuted shapes (`LeavesNative`: `witnessConnectLeak`;
+    `RenameSameSubject` together with a node change: `witnessRenameOrder`). -/
 theorem events_faithful_partial {c : Cat} (h : WF c) (idx : Nat) (w : Write) (hw : CleanWrite c w) :
     ∀ k, ViewEq (query k (applyWrite idx c w).1) (applyEvs (query k c) (evsFor k (applyWrite idx c w).2.1)) :=
   faithful_of_cleanWrite h idx w hw
@@ -85,8 +105,9 @@ theorem view_ok_partial_syntactic (ttl : Bool) (acts : List Act) (h : CleanRunS 
     update by update, to the current direct-query result: no committed change is skipped. -/
 theorem no_change_skipped_partial (ttl : Bool) (acts : List Act) (h : CleanRun (Sys.init ttl) acts) :
     ∀ c ∈ (run (Sys.init ttl) acts).clients, c.sub = .opened →
-      Sim c.m (c.inbox ++ queueItems c.key (run (Sys.init ttl) acts).queue)
-        (query c.key (run (Sys.init ttl) acts).cat) :=
+      ∃ mu, Rel c.authz c.key c.m mu ∧
+        Sim mu (c.inbox ++ queueItems c.key (run (Sys.init ttl) acts).queue)
+          (query c.key (run (Sys.init ttl) acts).cat) :=
   fun c hc ho => ((AllInv.init ttl).run acts h).inv.sim c hc ho
 
 /-- **the resume path is sound (in clean schedules).** Whenever `Subscribe` would resume a
@@ -95,7 +116,7 @@ theorem no_change_skipped_partial (ttl : Bool) (acts : List Act) (h : CleanRun (
 theorem resumed_subscription_is_current (ttl : Bool) (acts : List Act) (h : CleanRun (Sys.init ttl) acts) :
     ∀ c ∈ (run (Sys.init ttl) acts).clients, (run (Sys.init ttl) acts).queue = [] →
       resumes c (lookup? c.key (run (Sys.init ttl) acts).lasts) = true →
-      ViewEq c.m.view (query c.key (run (Sys.init ttl) acts).cat) := by
+      IsFilterOf c.authz c.key c.m.view (query c.key (run (Sys.init ttl) acts).cat) := by
   intro c hc hq hr
   obtain ⟨pc, hri⟩ := ((AllInv.init ttl).run acts h).rinv
   exact resume_view_current hri hq hc hr
@@ -105,28 +126,48 @@ theorem resumed_subscription_is_current (ttl : Bool) (acts : List Act) (h : Clea
 theorem quiescent_view_is_current (ttl : Bool) (acts : List Act) (h : CleanRun (Sys.init ttl) acts) :
     ∀ c ∈ (run (Sys.init ttl) acts).clients, c.sub = .opened → c.inbox = [] →
       (run (Sys.init ttl) acts).queue = [] → c.m.index ≠ 0 →
-      ViewEq c.m.view (query c.key (run (Sys.init ttl) acts).cat) := by
+      IsFilterOf c.authz c.key c.m.view (query c.key (run (Sys.init ttl) acts).cat) := by
   intro c hc ho hi hq hx
-  have := no_change_skipped_partial ttl acts h c hc ho
-  rw [hi, hq] at this
-  exact this.2 hx
+  obtain ⟨mu, hr, hs⟩ := no_change_skipped_partial ttl acts h c hc ho
+  rw [hi, hq] at hs
+  exact hr.view.congr (hs.2 (fun h0 => hx (hr.idx0.mpr h0)))
 
 /-- **view_ok_with_index_guard.** With the duplicate-event guard of internal/storage/inmem/watch.go
     (`Index ≤ last ⇒ skip`) applied in the materializer (`handleG`), the view theorem holds for
     every schedule in which subscriptions start at ANY moment — in particular between a commit
-    and its publication, the window of the known finding. Remaining hypotheses (`GuardRun`):
-    well-indexed faithful commits whose query index follows the commit (`IndexSound`), no resume
-    path, no restore. -/
+    and its publication, the window of the known finding — fresh, cached or RESUMED. Remaining
+    hypotheses (`GuardRun`): well-indexed faithful commits whose query index follows the commit
+    (`IndexSound`), no restore, unfiltered consumers. -/
 theorem view_ok_with_index_guard (ttl : Bool) (acts : List Act) (h : GuardRun (Sys.init ttl) acts) :
-    ViewOk (runG (Sys.init ttl) acts) :=
-  fun c hc => ((InvG.init ttl).runG acts h).exact c hc
+    ViewOkU (runG (Sys.init ttl) acts) :=
+  fun c hc => ((AllG.init ttl).runG acts h).inv.exact c hc
 
 /-- with the guard nothing is skipped either: pending steps replay to the current state -/
 theorem no_change_skipped_with_index_guard (ttl : Bool) (acts : List Act) (h : GuardRun (Sys.init ttl) acts) :
     ∀ c ∈ (runG (Sys.init ttl) acts).clients, c.sub = .opened →
       SimG (runG (Sys.init ttl) acts).lastIdx c.m (c.inbox ++ queueItems c.key (runG (Sys.init ttl) acts).queue)
         (query c.key (runG (Sys.init ttl) acts).cat) :=
-  fun c hc ho => ((InvG.init ttl).runG acts h).sim c hc ho
+  fun c hc ho => ((AllG.init ttl).runG acts h).inv.sim c hc ho
+
+/-- **resumed_subscription_is_current_with_index_guard.** With the guard, whenever `Subscribe`
+    would resume a materializer — at any moment, also while batches are queued for publication —
+    that materializer's view, replayed through exactly the queued batches of its key (the guard
+    lets every one of them through), reaches the current direct-query result; with nothing queued
+    it already IS the current result. -/
+theorem resumed_subscription_is_current_with_index_guard (ttl : Bool) (acts : List Act)
+    (h : GuardRun (Sys.init ttl) acts) :
+    ∀ c ∈ (runG (Sys.init ttl) acts).clients,
+      resumes c (lookup? c.key (runG (Sys.init ttl) acts).lasts) = true →
+      SimG (runG (Sys.init ttl) acts).lastIdx c.m.start (queueItems c.key (runG (Sys.init ttl) acts).queue)
+        (query c.key (runG (Sys.init ttl) acts).cat) ∧
+      ((runG (Sys.init ttl) acts).queue = [] → ViewEq c.m.view (query c.key (runG (Sys.init ttl) acts).cat)) := by
+  intro c hc hr
+  obtain ⟨hi, pc, hrg⟩ := (AllG.init ttl).runG acts h
+  have hs := resume_sim_guard hrg hi hc hr
+  refine ⟨hs, fun hq => ?_⟩
+  rw [hq] at hs
+  have hne := (resumes_true hr).1
+  exact hs.2.2.1 (by simpa [Mat.start] using hne)
 
 /-- **indexes_monotone with the guard** holds unconditionally: a streaming materializer never
     moves its index backwards (a framing event in that state is a handler error). -/
@@ -353,6 +394,23 @@ theorem shared_item_filtered_per_subscriber :
     (run (Sys.init true) witnessSharedFiltered).clients.map (fun c => (c.m.index, c.m.view.map (·.1.1))) =
       [(3, ["web"]), (3, ["api", "web"])] := by rfl
 
+/-- the two refuted registrations are exactly what `CleanWrite` rejects -/
+theorem cleanWrite_rejects_the_known_shapes :
+    ¬ CleanWrite (run (Sys.init false) (witnessConnectLeak.take 6)).cat
+        (.reg "n1" 1 (some (svc "n1" "s1" "web" 80 .typical))) ∧
+    ¬ CleanWrite (run (Sys.init false) (witnessRenameOrder.take 6)).cat
+        (.reg "n1" 2 (some (svc "n1" "s1" "db" 80 (.proxy "web")))) := by
+  constructor <;> decide
+
+/-- the shared-snapshot schedule with a restricted and an unrestricted subscriber is clean: the
+    filtered view theorem applies to it -/
+theorem cleanRunS_filtered_nonvacuous : CleanRunS (Sys.init true) witnessSharedFiltered := by
+  refine ⟨?_, ?_, ⟨by decide, trivial⟩, ⟨by decide, trivial⟩, trivial, trivial, ?_, ?_, trivial, trivial, trivial, trivial, trivial⟩
+  · show AuthzOk _ _; decide
+  · show AuthzOk _ _; decide
+  · show CleanSubR _ 1; decide
+  · show CleanSubR _ 2; decide
+
 /-! ## Non-vacuity: the hypotheses are satisfiable by schedules that deliver events -/
 
 /-- a clean schedule: two subscribers (named and wildcard subject), snapshot, streamed update -/
@@ -363,8 +421,8 @@ def witnessClean : List Act :=
    .commit 3 (.cfgSet "web" 2), .publishOne, .subscribe 2, .next 1, .next 2, .next 2]
 
 theorem cleanRun_nonvacuous : CleanRun (Sys.init true) witnessClean := by
-  refine ⟨(by first | trivial | (show Unfiltered _ _; decide)), (by first | trivial | (show Unfiltered _ _; decide)), ⟨by decide, faithful_cfgSet _ _ _ _⟩, (by first | trivial | (show Unfiltered _ _; decide)), ?_, (by first | trivial | (show Unfiltered _ _; decide)), (by first | trivial | (show Unfiltered _ _; decide)),
-    ⟨?_, faithful_cfgSet _ _ _ _⟩, (by first | trivial | (show Unfiltered _ _; decide)), ?_, (by first | trivial | (show Unfiltered _ _; decide)), (by first | trivial | (show Unfiltered _ _; decide)), (by first | trivial | (show Unfiltered _ _; decide)), (by first | trivial | (show Unfiltered _ _; decide))⟩
+  refine ⟨(by first | trivial | (show Unfiltered _ _; decide) | (show AuthzOk _ _; decide)), (by first | trivial | (show Unfiltered _ _; decide) | (show AuthzOk _ _; decide)), ⟨by decide, faithful_cfgSet _ _ _ _⟩, (by first | trivial | (show Unfiltered _ _; decide) | (show AuthzOk _ _; decide)), ?_, (by first | trivial | (show Unfiltered _ _; decide) | (show AuthzOk _ _; decide)), (by first | trivial | (show Unfiltered _ _; decide) | (show AuthzOk _ _; decide)),
+    ⟨?_, faithful_cfgSet _ _ _ _⟩, (by first | trivial | (show Unfiltered _ _; decide) | (show AuthzOk _ _; decide)), ?_, (by first | trivial | (show Unfiltered _ _; decide) | (show AuthzOk _ _; decide)), (by first | trivial | (show Unfiltered _ _; decide) | (show AuthzOk _ _; decide)), (by first | trivial | (show Unfiltered _ _; decide) | (show AuthzOk _ _; decide)), (by first | trivial | (show Unfiltered _ _; decide) | (show AuthzOk _ _; decide))⟩
   · show CleanSubR _ 1; decide
   · decide
   · show CleanSubR _ 2; decide
@@ -383,19 +441,12 @@ def witnessCleanSvc : List Act :=
    .commit 4 (.dereg "n1" (some "s1")), .publishOne, .next 1, .next 2]
 
 theorem cleanRunS_nonvacuous : CleanRunS (Sys.init true) witnessCleanSvc := by
-  refine ⟨(by first | trivial | (show Unfiltered _ _; decide)), (by first | trivial | (show Unfiltered _ _; decide)), ⟨by decide, ?_⟩, (by first | trivial | (show Unfiltered _ _; decide)), ?_, ?_, (by first | trivial | (show Unfiltered _ _; decide)), (by first | trivial | (show Unfiltered _ _; decide)), (by first | trivial | (show Unfiltered _ _; decide)), (by first | trivial | (show Unfiltered _ _; decide)),
-    ⟨by decide, ?_⟩, (by first | trivial | (show Unfiltered _ _; decide)), (by first | trivial | (show Unfiltered _ _; decide)), (by first | trivial | (show Unfiltered _ _; decide)), ⟨by decide, (by first | trivial | (show Unfiltered _ _; decide))⟩, (by first | trivial | (show Unfiltered _ _; decide)), (by first | trivial | (show Unfiltered _ _; decide)), (by first | trivial | (show Unfiltered _ _; decide)), (by first | trivial | (show Unfiltered _ _; decide))⟩
-  · exact ⟨rfl, Or.inr ⟨by decide, by rfl⟩⟩
+  refine ⟨(by first | trivial | (show Unfiltered _ _; decide) | (show AuthzOk _ _; decide)), (by first | trivial | (show Unfiltered _ _; decide) | (show AuthzOk _ _; decide)), ⟨by decide, ?_⟩, (by first | trivial | (show Unfiltered _ _; decide) | (show AuthzOk _ _; decide)), ?_, ?_, (by first | trivial | (show Unfiltered _ _; decide) | (show AuthzOk _ _; decide)), (by first | trivial | (show Unfiltered _ _; decide) | (show AuthzOk _ _; decide)), (by first | trivial | (show Unfiltered _ _; decide) | (show AuthzOk _ _; decide)), (by first | trivial | (show Unfiltered _ _; decide) | (show AuthzOk _ _; decide)),
+    ⟨by decide, ?_⟩, (by first | trivial | (show Unfiltered _ _; decide) | (show AuthzOk _ _; decide)), (by first | trivial | (show Unfiltered _ _; decide) | (show AuthzOk _ _; decide)), (by first | trivial | (show Unfiltered _ _; decide) | (show AuthzOk _ _; decide)), ⟨by decide, (by first | trivial | (show Unfiltered _ _; decide) | (show AuthzOk _ _; decide))⟩, (by first | trivial | (show Unfiltered _ _; decide) | (show AuthzOk _ _; decide)), (by first | trivial | (show Unfiltered _ _; decide) | (show AuthzOk _ _; decide)), (by first | trivial | (show Unfiltered _ _; decide) | (show AuthzOk _ _; decide)), (by first | trivial | (show Unfiltered _ _; decide) | (show AuthzOk _ _; decide))⟩
+  · show CleanWrite _ _; decide
   · show CleanSubR _ 1; decide
   · show CleanSubR _ 2; decide
-  · refine ⟨rfl, Or.inl ⟨by rfl, ?_, ?_⟩⟩
-    · rintro ⟨b, hb, -, -, hs⟩
-      exact hs rfl
-    · intro b d hb hk
-      have : findSvc (run (Sys.init true) (witnessCleanSvc.take 10)).cat "n1" "s1" = some (svc "n1" "s1" "web" 80 .native) := by rfl
-      have hb' : some b = some (svc "n1" "s1" "web" 80 .native) := hb.symm.trans this
-      cases hb'
-      cases hk
+  · show CleanWrite _ _; decide
 
 theorem cleanRunS_delivers :
     (run (Sys.init true) witnessCleanSvc).clients.map (fun c => (c.m.index, c.m.view)) = [(4, []), (4, [])] := by rfl
@@ -411,10 +462,10 @@ def witnessResume : List Act :=
    .commit 5 (.kv), .publishOne, .next 1]
 
 theorem cleanRunS_resume_nonvacuous : CleanRunS (Sys.init false) witnessResume := by
-  refine ⟨(by first | trivial | (show Unfiltered _ _; decide)), (by first | trivial | (show Unfiltered _ _; decide)), ⟨by decide, ?_⟩, (by first | trivial | (show Unfiltered _ _; decide)), ?_, ?_, (by first | trivial | (show Unfiltered _ _; decide)), (by first | trivial | (show Unfiltered _ _; decide)),
-    ⟨by decide, (by first | trivial | (show Unfiltered _ _; decide))⟩, ⟨by decide, (by first | trivial | (show Unfiltered _ _; decide))⟩, (by first | trivial | (show Unfiltered _ _; decide)), (by first | trivial | (show Unfiltered _ _; decide)), (by first | trivial | (show Unfiltered _ _; decide)), (by first | trivial | (show Unfiltered _ _; decide)), ?_,
-    ⟨by decide, (by first | trivial | (show Unfiltered _ _; decide))⟩, (by first | trivial | (show Unfiltered _ _; decide)), (by first | trivial | (show Unfiltered _ _; decide)), (by first | trivial | (show Unfiltered _ _; decide))⟩
-  · exact ⟨rfl, Or.inr ⟨by decide, by rfl⟩⟩
+  refine ⟨(by first | trivial | (show Unfiltered _ _; decide) | (show AuthzOk _ _; decide)), (by first | trivial | (show Unfiltered _ _; decide) | (show AuthzOk _ _; decide)), ⟨by decide, ?_⟩, (by first | trivial | (show Unfiltered _ _; decide) | (show AuthzOk _ _; decide)), ?_, ?_, (by first | trivial | (show Unfiltered _ _; decide) | (show AuthzOk _ _; decide)), (by first | trivial | (show Unfiltered _ _; decide) | (show AuthzOk _ _; decide)),
+    ⟨by decide, (by first | trivial | (show Unfiltered _ _; decide) | (show AuthzOk _ _; decide))⟩, ⟨by decide, (by first | trivial | (show Unfiltered _ _; decide) | (show AuthzOk _ _; decide))⟩, (by first | trivial | (show Unfiltered _ _; decide) | (show AuthzOk _ _; decide)), (by first | trivial | (show Unfiltered _ _; decide) | (show AuthzOk _ _; decide)), (by first | trivial | (show Unfiltered _ _; decide) | (show AuthzOk _ _; decide)), (by first | trivial | (show Unfiltered _ _; decide) | (show AuthzOk _ _; decide)), ?_,
+    ⟨by decide, (by first | trivial | (show Unfiltered _ _; decide) | (show AuthzOk _ _; decide))⟩, (by first | trivial | (show Unfiltered _ _; decide) | (show AuthzOk _ _; decide)), (by first | trivial | (show Unfiltered _ _; decide) | (show AuthzOk _ _; decide)), (by first | trivial | (show Unfiltered _ _; decide) | (show AuthzOk _ _; decide))⟩
+  · show CleanWrite _ _; decide
   · show CleanSubR _ 1; decide
   · show CleanSubR _ 2; decide
   · show CleanSubR _ 1; decide
@@ -434,10 +485,35 @@ def witnessGuard : List Act :=
    .subscribe 1, .publishOne, .publishOne, .next 1, .next 1, .next 1, .next 1]
 
 theorem guardRun_nonvacuous : GuardRun (Sys.init true) witnessGuard := by
-  refine ⟨(by first | trivial | (show Unfiltered _ _; decide)), ⟨by decide, faithful_cfgSet _ _ _ _, indexSound_cfgSet _ _ _ _ (by decide)⟩,
+  refine ⟨(by first | trivial | (show Unfiltered _ _; decide) | (show AuthzOk _ _; decide)), ⟨by decide, faithful_cfgSet _ _ _ _, indexSound_cfgSet _ _ _ _ (by decide)⟩,
     ⟨by decide, faithful_cfgSet _ _ _ _, indexSound_cfgSet _ _ _ _ (by decide)⟩, ?_,
-    (by first | trivial | (show Unfiltered _ _; decide)), (by first | trivial | (show Unfiltered _ _; decide)), (by first | trivial | (show Unfiltered _ _; decide)), (by first | trivial | (show Unfiltered _ _; decide)), (by first | trivial | (show Unfiltered _ _; decide)), (by first | trivial | (show Unfiltered _ _; decide)), (by first | trivial | (show Unfiltered _ _; decide))⟩
-  simp only [GuardAct]; decide
+    (by first | trivial | (show Unfiltered _ _; decide) | (show AuthzOk _ _; decide)), (by first | trivial | (show Unfiltered _ _; decide) | (show AuthzOk _ _; decide)), (by first | trivial | (show Unfiltered _ _; decide) | (show AuthzOk _ _; decide)), (by first | trivial | (show Unfiltered _ _; decide) | (show AuthzOk _ _; decide)), (by first | trivial | (show Unfiltered _ _; decide) | (show AuthzOk _ _; decide)), (by first | trivial | (show Unfiltered _ _; decide) | (show AuthzOk _ _; decide)), (by first | trivial | (show Unfiltered _ _; decide) | (show AuthzOk _ _; decide))⟩
+  simp only [GuardAct]
+
+/-- the resume path with a batch still queued: subscriber 1 disconnects at index 3, commit 4 is
+    made but not published, subscriber 1 re-subscribes and is RESUMED (subscriber 2 keeps the
+    buffer alive), then the batch is published and read -/
+def witnessGuardResume : List Act :=
+  [.client 1 ⟨.cfg, .named "web"⟩ "t1" false .all, .client 2 ⟨.cfg, .named "web"⟩ "t2" true .all,
+   .commit 2 (.cfgSet "web" 1), .publishOne, .subscribe 1, .subscribe 2, .next 1, .next 1,
+   .commit 3 (.cfgSet "web" 2), .publishOne, .next 1, .unsub 1,
+   .commit 4 (.cfgSet "web" 3), .subscribe 1, .publishOne, .next 1]
+
+theorem guardRun_resume_nonvacuous : GuardRun (Sys.init false) witnessGuardResume := by
+  refine ⟨trivial, trivial, ⟨by decide, faithful_cfgSet _ _ _ _, indexSound_cfgSet _ _ _ _ (by decide)⟩, trivial,
+    trivial, trivial, ?_, ?_, ⟨by decide, faithful_cfgSet _ _ _ _, indexSound_cfgSet _ _ _ _ (by decide)⟩, trivial, ?_,
+    trivial, ⟨by decide, faithful_cfgSet _ _ _ _, indexSound_cfgSet _ _ _ _ (by decide)⟩, trivial, trivial, ?_, trivial⟩
+  all_goals (show Unfiltered _ _; decide)
+
+/-- the re-subscription is a resume with one batch queued, and after publication the resumed
+    materializer holds the newest entry -/
+theorem guard_resume_witness_resumes :
+    (getClient (runG (Sys.init false) (witnessGuardResume.take 14)) 1).map
+        (fun c => (c.inbox, c.m.h, c.m.index, (runG (Sys.init false) (witnessGuardResume.take 14)).queue.length))
+      = some ([], .resume, 3, 1) ∧
+    (getClient (runG (Sys.init false) witnessGuardResume) 1).map (fun c => (c.m.index, c.m.view.map (·.2.port)))
+      = some (4, [3]) := by
+  constructor <;> rfl
 
 theorem guard_repairs_witness :
     monoB (run (Sys.init true) witnessGuard) = false ∧
